@@ -9,8 +9,8 @@ from checks import callcommon
 from framework import Case, Finding
 
 PROP = "C15"
-GENERATED = ['DtypeTables', 'Core', 'SrcShape', 'ShapeLoop', 'SrcExpand']  # generated files this check's tie depends on
-LEAN_MODULES = ["Properties.C15", "Properties.Core", "Properties.Prov.Shape", "Properties.CoreShape", "Properties.Prov.Expand"]
+GENERATED = ['DtypeTables', 'Core', 'SrcShape', 'ShapeLoop', 'SrcExpand', 'Errors']  # generated files this check's tie depends on
+LEAN_MODULES = ["Properties.C15", "Properties.Core", "Properties.Prov.Shape", "Properties.CoreShape", "Properties.Prov.Expand", "Properties.CoreErrors"]
 RULE = (
     "seeded contexts (1-3 arrays, zero-sized and zero-rank included, dtypes from the shared categories bool / int8-64 / uint8-64 / "
     "float16-64, 0-1 perturbations) re-run under ALL 3^n assignments of a library in {numpy, torch, jax} to their arrays, directly and "
